@@ -487,6 +487,7 @@ private:
   explicit Context(const Context& ctx);
   Context * createChildShell(Context& root) const;
   Context * createChildRuntime(Context& root, uint8_t recursion) const;
+  void resetRuntime(const Context& shell);
 };
 
 }
